@@ -810,6 +810,7 @@ func (c *Client) peekPacket() (head byte, err error) {
 	}
 
 	// slice payload form read buffer
+	lastN := 0
 	for {
 		if c.bufr.Buffered() < size && c.PauseTimeout != 0 {
 			err := c.readConn.SetReadDeadline(time.Now().Add(c.PauseTimeout))
@@ -818,7 +819,6 @@ func (c *Client) peekPacket() (head byte, err error) {
 			}
 		}
 
-		lastN := len(c.peek)
 		c.peek, err = c.bufr.Peek(size)
 		switch {
 		case err == nil: // OK
@@ -830,6 +830,7 @@ func (c *Client) peekPacket() (head byte, err error) {
 		// Allow deadline expiry if at least one byte was transferred.
 		var ne net.Error
 		if len(c.peek) > lastN && errors.As(err, &ne) && ne.Timeout() {
+			lastN = len(c.peek)
 			continue
 		}
 
